@@ -84,6 +84,16 @@ CHECKS = {
                      "source trace, tracefield grids with zeros at holes, and every volume voxel = ZFP cell of the zero-filled, zero-extended grid. "
                      "Bounded model checking.",
                 design='DESIGN.md 7/C08'),
+    'C10': dict(text="The real SgzCropper runs on a symbolic conforming source (abstract data / footer bytes) with symbolic, possibly absent, index "
+                     "ranges; the real reader then reads the output. z3 shows: header fields, file length, footer convention, axes, trace count, "
+                     "structured flag, every voxel and every header value equal the source's at the position shifted by the block-aligned box; invalid "
+                     "requests raise IndexError and open no output; other layouts are refused or right. Bounded model checking.",
+                design='DESIGN.md 7/C10'),
+    'C12': dict(text="convert_to_adv_sgz on symbolic conforming 2-bit default-layout sources of enumerated shapes (below / at / above one and two "
+                     "64-blocks, every residue class of n mod 4 at the block edge): every real voxel of the output decodes the very same source "
+                     "cell bytes, header fields / hash / file header / footer arrays are carried and conform to the source's format version; "
+                     "unsupported inputs are refused without output. Bounded model checking.",
+                design='DESIGN.md 7/C12'),
 }
 
 NOT_YET = "check not built yet in this session (work in progress; see DESIGN.md section 11 build order)"
